@@ -88,6 +88,7 @@ int main(int argc, char **argv) {
             CellVec cv = {0};
             cv_pentagon_strata(&cv, res, quick ? 2 : 4); cv_seam_cells(&cv, res, quick ? 12 : 150); cv_random_cells(&cv, res, quick ? 15 : 150); cv_sparse_digit_sample(&cv, res, quick ? 6 : 40); cv_coarse_boundary_sample(&cv, res, quick ? 6 : 40); if (res >= 8 || !quick) cv_face_centre_cells(&cv, res, quick ? 1 : 2);
             cv_polar_cells(&cv, res); cv_antimeridian_cells(&cv, res, quick ? 4 : 24);
+            if (res == 5 || (!quick && res <= 7)) cv_pentagon_edge_strip(&cv, res, 1, 0);      /* complete strips along the icosahedron edges inside the pentagons' base cells */
             for (int64_t i = 0; i < cv.n; i++) ev_boundary(cv.v[i]);
             cv_free(&cv);
             /* dense walk along the icosahedron edges: only the cell's own boundary */
